@@ -36,8 +36,17 @@ class MachineryError(Exception):
     """The verification machinery itself failed (never a verdict)."""
 
 
+def _platform_defaults():
+    """The checks run with platform defaults that have teeth: a local time zone with daylight
+    saving (nothing in rxsci may depend on it)."""
+    import time
+    os.environ['TZ'] = 'CET-1CEST,M3.5.0,M10.5.0/3'
+    time.tzset()
+
+
 def use_repo():
     """Make `import rxsci` resolve to the tree under test, without bytecode cache."""
+    _platform_defaults()
     sys.dont_write_bytecode = True
     if REPO not in sys.path:
         sys.path.insert(0, REPO)
